@@ -58,6 +58,8 @@ class ArmEval:
                 f = e["name"]
                 if f in ("min_size", "const_size", "hard"):
                     return ({"min_size": "m", "const_size": "k", "hard": "h"}[f], i)
+                if f in ("start_group", "end_group"):
+                    return ("g", i, f)
             if H.canon(e) == "self.group_ix":
                 return ("p", "group_ix")
             raise Unanalysable("field " + H.canon(e))
@@ -197,6 +199,8 @@ def ev(e, val):
         return e[1]
     if k in ("m", "k", "h"):
         return val[(k, e[1])]
+    if k == "g":
+        return val.get(("g", e[1], e[2]), 0)
     if k == "p":
         return val[("p", e[1])]
     if k == "opaque":
@@ -247,6 +251,8 @@ def show(e):
         return "MAX" if e[1] == MAXI else str(e[1])
     if k in ("m", "k", "h"):
         return "c%d.%s" % (e[1], {"m": "min", "k": "const", "h": "hard"}[k])
+    if k == "g":
+        return "c%d.%s" % (e[1], e[2])
     if k == "p":
         return e[1]
     if k == "opaque":
@@ -262,6 +268,8 @@ def syms(e, acc):
     k = e[0]
     if k in ("m", "k", "h"):
         acc.add((k, e[1]))
+    elif k == "g":
+        pass
     elif k == "p":
         acc.add(("p", e[1]))
     elif k == "opaque":
@@ -497,6 +505,24 @@ def analyzer_rule(run, ctx):
                               "Expr::%s: unsound transfer function: %s.  Extracted min=%s, const=%s, hard=%s; child facts %s%s" %
                               (variant, cex[1], show(M_), show(K_), show(Hd), vs_, (" (child match lengths consistent with these facts give parent lengths %s)" % sorted(cex[3])) if len(cex) > 3 else ""),
                               {"valuation": vs_})
+            # a `{0}` repeat is dropped by the inner engine together with the capture groups inside it: it must
+            # not be delegated when its child contains groups (group counts of the two engines would differ)
+            if variant == "Repeat":
+                bad = None
+                for lo_ in (0,):
+                    for kk in (False, True):
+                        val = {("m", 0): 1, ("k", 0): kk, ("h", 0): False, ("p", "lo"): 0, ("p", "hi"): 0,
+                               ("g", 0, "start_group"): 1, ("g", 0, "end_group"): 2}
+                        for o in os_:
+                            val[o] = False
+                        try:
+                            if not bool(ev(Hd, val)):
+                                bad = val
+                        except Exception:
+                            bad = val
+                if bad is not None:
+                    run.violation(fam, label, "Repeat/zero-with-groups", H.where(arm),
+                                  "Expr::Repeat with hi == 0 whose child contains capture groups is not marked hard (hard=%s): the inner engine drops `(a){0}` together with its group, so captures_len / capture_names / Captures::len of a delegated pattern disagree with the pattern's groups and with the VM" % show(Hd))
             # unconditional hardness for what to_str cannot print
             if variant in MUST_BE_HARD:
                 try:
